@@ -120,6 +120,9 @@ pub struct Trace {
     pub mode: Mode,
     pub via: Via,
     pub env: EnvSel,
+    /// how x travelled before the call (see Dec::to_bd_via); 0 = built freshly
+    #[serde(default)]
+    pub transport: u8,
 }
 
 pub struct C12;
@@ -451,7 +454,7 @@ impl Property for C12 {
             let x = Dec::new(rng.chance(1, 2), &int.to_str_radix(10), rng.range(-30, 30));
             let nd = exact_reciprocal(&x.to_ref()).map(|(_, nd)| nd).unwrap_or(1);
             let prec = (nd as i64 - 1 + pk as i64).clamp(1, 150) as u64;
-            return Trace { x, prec, mode, via: Via::Ctx, env: EnvSel::All };
+            return Trace { x, prec, mode, via: Via::Ctx, env: EnvSel::All, transport: (run % 7) as u8 };
         }
         if run < GRID + GRID2 {
             // deterministic enumeration of the reciprocals just above / below a power of ten the property names:
@@ -473,7 +476,7 @@ impl Property for C12 {
             }
             .clamp(1, 150) as u64;
             let x = Dec::new(rng.chance(1, 2), &digits, rng.range(-20, 20));
-            return Trace { x, prec, mode, via: Via::Ctx, env: EnvSel::All };
+            return Trace { x, prec, mode, via: Via::Ctx, env: EnvSel::All, transport: (run % 7) as u8 };
         }
         if run < GRID + GRID2 + GRID3 {
             // leading digits x length x small precision: every 3-digit prefix 100..999 x 1..22 digits x p = 1..3
@@ -491,7 +494,7 @@ impl Property for C12 {
             }
             let mode = *rng.pick(&MODES);
             let x = Dec::new(rng.chance(1, 2), &digits, rng.range(-25, 25));
-            return Trace { x, prec, mode, via: Via::Ctx, env: EnvSel::One(FloatEnv::Native) };
+            return Trace { x, prec, mode, via: Via::Ctx, env: EnvSel::One(FloatEnv::Native), transport: (run % 7) as u8 };
         }
         if run < GRID + GRID2 + GRID3 + GRID4 {
             // every precision 1..=150 for the one- and two-digit coefficients 1..=12 (random scale, sign and mode):
@@ -500,14 +503,14 @@ impl Property for C12 {
             let c = r % 12 + 1;
             let prec = r / 12 + 1;
             let x = Dec::new(rng.chance(1, 2), &c.to_string(), rng.range(-30, 30));
-            return Trace { x, prec, mode: *rng.pick(&MODES), via: Via::Ctx, env: EnvSel::All };
+            return Trace { x, prec, mode: *rng.pick(&MODES), via: Via::Ctx, env: EnvSel::All, transport: (run % 7) as u8 };
         }
         let via = if rng.chance(1, 5) { *rng.pick(&VIAS_DEFAULT) } else { Via::Ctx };
         if via != Via::Ctx && rng.chance(1, 2) {
             // the operator forms have shortcuts of their own (one, two, powers of ten ...): aim at them
             let ints: [&str; 16] = ["1", "-1", "2", "-2", "10", "-10", "100", "-100", "5", "-5", "4", "-8", "25", "3", "-7", "1000"];
             let x = Dec { int: rng.pick(&ints).to_string(), scale: rng.range(-6, 6) };
-            return Trace { x, prec: DEFAULT_PREC, mode: Mode::HalfEven, via, env: EnvSel::All };
+            return Trace { x, prec: DEFAULT_PREC, mode: Mode::HalfEven, via, env: EnvSel::All, transport: (run % 7) as u8 };
         }
         if via == Via::Ctx && rng.chance(1, 12) {
             // reciprocals at a rounding boundary: 1/x within ~10^-(p+15) of a half-way point of the p-digit result
@@ -540,12 +543,13 @@ impl Property for C12 {
             let xi = xi + BigUint::from(delta);
             let x = Dec::new(rng.chance(1, 2), &xi.to_str_radix(10), rng.range(-40, 40));
             let mode = *rng.pick(&MODES);
-            return Trace { x, prec, mode, via: Via::Ctx, env: EnvSel::All };
+            return Trace { x, prec, mode, via: Via::Ctx, env: EnvSel::All, transport: (run % 7) as u8 };
         }
         let (x, hint) = gen_x(rng);
         let prec = if via == Via::Ctx { gen_prec(rng, hint) } else { DEFAULT_PREC };
         let mode = if via == Via::Ctx { *rng.pick(&MODES) } else { Mode::HalfEven };
-        Trace { x, prec, mode, via, env: EnvSel::All }
+        let transport = rng.below(7) as u8;
+        Trace { x, prec, mode, via, env: EnvSel::All, transport }
     }
 
     fn execute(&self, t: &Trace, obs: &mut Obs) -> Vec<Failure> {
@@ -554,7 +558,7 @@ impl Property for C12 {
             return fails; // outside the property's domain
         }
         let (p, mode) = if t.via == Via::Ctx { (t.prec, t.mode) } else { (DEFAULT_PREC, Mode::HalfEven) };
-        let x = t.x.to_bd();
+        let x = t.x.to_bd_via(t.transport);
         let xr = t.x.to_ref();
         let exact = exact_reciprocal(&xr);
         let le = t.x.lead_exp();
@@ -703,7 +707,7 @@ impl Property for C12 {
         // ---- A4: negation commutes under the mirrored mode (native environment)
         if t.via == Via::Ctx {
             if let Some(v) = native_value.as_ref() {
-                let tm = Trace { x: t.x.negated(), prec: p, mode: mode.mirror(), via: Via::Ctx, env: EnvSel::One(FloatEnv::Native) };
+                let tm = Trace { x: t.x.negated(), prec: p, mode: mode.mirror(), via: Via::Ctx, env: EnvSel::One(FloatEnv::Native), transport: 0 };
                 let xm = tm.x.to_bd();
                 let exm = run_once(&xm, &tm, FloatEnv::Native, p, e0);
                 obs.execs += 1;
@@ -774,6 +778,9 @@ impl Property for C12 {
             if t.mode != Mode::HalfEven && t.mode != Mode::Down {
                 out.push(Trace { mode: Mode::HalfEven, ..t.clone() });
             }
+        }
+        if t.transport != 0 {
+            out.push(Trace { transport: 0, ..t.clone() });
         }
         for d in gen::shrink_dec(&t.x) {
             if !d.is_zero() {
